@@ -31,6 +31,7 @@ import NeoModel.Model.Wire.Obj
 import NeoModel.Model.Wire.ItemJson
 import NeoModel.Model.Wire.ItemJsonU
 import NeoModel.Model.Wire.Scopes
+import NeoModel.Model.Wire.MsgObj
 open NeoModel NeoModel.Wire NeoModel.Wire.Text
 
 def joinToks (t : List String) : String := " ".intercalate t
@@ -244,6 +245,7 @@ def txPathsObs (b : Bytes) : String :=
 structure DrvSt where
   tx : Option TxObj := none
   ext : Option ExtObj := none
+  msg : Option (MsgObj × Bool) := none   -- a Message object and its StateRootInHeader
 
 def setNth {α : Type} : List α → Nat → (α → α) → List α
   | [], _, _ => []
@@ -292,9 +294,40 @@ def extoStep (s : DrvSt) (ws : List String) : DrvSt × String :=
   | ["bytes"], some o => (s, Hex.encode (extensibleC.enc o.v))
   | _, _ => (s, "bad-op")
 
+/-- one network.Message object through Decode / several EncodeCompressed (Model/Wire/MsgObj.lean). LZ4 is not
+modelled: a compressed serialisation is observed as its flags byte and the payload bytes that were compressed, a plain
+one as the whole frame. `set` puts the object into the state Decode leaves (flags, command, payload bytes). -/
+def msgoStep (s : DrvSt) (ws : List String) : DrvSt × String :=
+  match ws with
+  | ["set", sr, fl, cmd, h] =>
+    match fl.toNat?, cmd.toNat?, Hex.decode h with
+    | some f, some c, some body =>
+      let srb := sr == "1"
+      match payloadDec Sha256.hash p256 srb (UInt8.ofNat c) body with
+      | some p => ({ s with msg := some (⟨UInt8.ofNat f, UInt8.ofNat c, p⟩, srb) }, "ok")
+      | none => ({ s with msg := none }, "err")
+    | _, _, _ => (s, "bad-op")
+  | ["dec", sr, h] =>
+    let srb := sr == "1"
+    match (Hex.decode h).bind (MsgObj.decode (fun _ => none) Sha256.hash p256 srb) with
+    | some (o, []) => ({ s with msg := some (o, srb) }, s!"ok flags={o.flags.toNat}")
+    | _ => ({ s with msg := none }, "err")
+  | ["enc", a] =>
+    match s.msg with
+    | some (o, srb) =>
+      let allow := a == "1"
+      let f := o.frame id Sha256.hash p256 srb allow
+      let s' := { s with msg := some ((o.encode id Sha256.hash p256 srb allow).1, srb) }
+      if o.compresses Sha256.hash p256 srb allow then
+        (s', s!"flags={f.flags.toNat} form=lz4 body={Hex.encode (payloadEnc Sha256.hash p256 srb o.payload)}")
+      else (s', s!"flags={f.flags.toNat} form=plain frame={Hex.encode (frameC.enc f)}")
+    | none => (s, "bad-op")
+  | _ => (s, "bad-op")
+
 def step (s : DrvSt) (ws : List String) : DrvSt × String :=
   match ws with
   | ["case", k] => ({}, s!"case {k}")
+  | "msgo" :: rest => msgoStep s rest
   | "getvarsize" :: kind :: sizes =>
     let k : Option ElemKind := match kind with
       | "ser" => some .serializable
